@@ -2,6 +2,7 @@
     Model: Life/Model.v (every label sequence = every history and schedule of
     API calls from any number of tasks, gate releases, run-task steps and
     child exits).  Proofs: Life/LockInv.v, Life/FsmInv.v, Life/Single.v. *)
+From NL Require Import Life.Close Life.Protocol Life.Refusal.
 From NL Require Import Life.Model Life.LockInv Life.FsmInv Life.Hist Life.Single.
 
 (** never two child processes alive; a live child only while the state is 'running' *)
@@ -43,6 +44,76 @@ Theorem C15_run_task_states : forall stmt start th md ls,
   runt s <> None -> st_fsm s = Running \/ st_fsm s = Finished.
 Proof. exact run_task_states. Qed.
 
+(** ---- the same on HISTORIES (Life/Refusal.v) ---- *)
+
+(** in every reachable state in which a run task exists (a run starting, running or
+    finishing), a run request that reaches its turn -- at its own step after queueing for the
+    lock, or inside its [Call] when the lock is free -- returns MachineError
+    (and by C01_refused_on_history changes nothing) *)
+Theorem C15_second_run_refused_on_history : forall stmt start th md ls t c,
+  let s := run_labels (init_state stmt start th md) ls in
+  runt s <> None -> runlike c = true ->
+  (find_task (tasks s) t = Some (c, Granted1) ->
+   In (EvRet t c RMachineError) (appended s (step s (Step t)))) /\
+  (find_task (tasks s) t = None -> holder s = None -> lockq s = [] ->
+   (is_cont c = true -> cont_closed s = false) ->
+   In (EvRet t c RMachineError) (appended s (step s (Call t c)))).
+Proof. exact Refusal.all_second_run_refused. Qed.
+
+(** a reset that reaches its turn while the state is 'running' returns MachineError *)
+Theorem C15_reset_refused_while_running : forall stmt start th md ls t o,
+  let s := run_labels (init_state stmt start th md) ls in
+  st_fsm s = Running -> find_task (tasks s) t = Some (CReset o, Granted1) ->
+  In (EvRet t (CReset o) RMachineError) (appended s (step s (Step t))).
+Proof. exact Refusal.all_reset_refused_while_running. Qed.
+
+(** "every reset while a run task exists is refused" is FALSE of the model (and of the code):
+    while the run task is finishing (state already 'finished', on_finished / state notification
+    still to be delivered) a reset is accepted ... *)
+Theorem C15_reset_refused_during_run_refuted :
+  let s := run_labels (init_state 7 1 false false) finishing_labels in
+  let c := CReset (mkOpts None None None None) in
+  runt s = Some RT_G_fin /\ st_fsm s = Finished /\
+  find_task (tasks (step s (Call 2%nat c))) 2%nat = Some (c, Z_G1b) /\
+  appended s (step s (Call 2%nat c)) = [EvCall 2%nat c; EvHook (mkHook HReset Finished None None None)].
+Proof. exact Refusal.reset_while_finishing_witness. Qed.
+
+(** ... but (the strongest true statement) it then WAITS for the run task: as long as the run
+    task exists its step re-initialises nothing (state, run arguments, run number, hook log
+    and publications unchanged) and it stays at the wait *)
+Theorem C15_reset_during_run_partial : forall stmt start th md ls t c p,
+  let s := run_labels (init_state stmt start th md) ls in
+  runt s <> None -> find_task (tasks s) t = Some (c, p) -> p = Z_G1b \/ p = Z_WaitRunTask ->
+  let s' := step s (Step t) in
+  st_fsm s' = st_fsm s /\ run_arg s' = run_arg s /\ c_next s' = c_next s /\ runt s' = runt s /\
+  hooks_of (history s') = hooks_of (history s) /\ pubs_of (history s') = pubs_of (history s) /\
+  find_task (tasks s') t = Some (c, Z_WaitRunTask).
+Proof. exact Refusal.all_reset_waits. Qed.
+
+(** a run request that returns ROk was accepted at an earlier moment of the same history
+    (a prefix ls1 and the request's own label l1) at which the object was idle: state
+    'initialized', no run task, no child alive, no pending exit *)
+Theorem C15_accepted_run_implies_idle : forall stmt start th md ls l t c,
+  let init := init_state stmt start th md in
+  let s := run_labels init ls in
+  runlike c = true -> In (EvRet t c ROk) (appended s (step s l)) ->
+  exists ls1 l1 ls2, ls = ls1 ++ l1 :: ls2 /\
+    let s1 := run_labels init ls1 in
+    st_fsm s1 = Initialized /\ runt s1 = None /\ alive s1 = 0%nat /\ pending_exit s1 = None /\
+    (l1 = Step t \/ l1 = Call t c) /\ runlike c = true /\
+    st_fsm (step s1 l1) = Running /\ find_task (tasks (step s1 l1)) t = Some (c, R_WaitStarted).
+Proof. exact Refusal.all_accepted_run_implies_idle. Qed.
+
+(** a run_and_continue that queued behind run() gets its turn while the child runs: refused;
+    the run() itself returns ROk (hypothesis of C15_accepted_run_implies_idle) *)
+Example C15_example_history_nonvacuous :
+  let s := refusal_state in
+  runt s = Some RT_WaitChild /\ find_task (tasks s) 2%nat = Some (CRunCont, Granted1)
+  /\ appended s (step s (Step 2%nat)) = [EvPub (PCont false); EvRet 2%nat CRunCont RMachineError]
+  /\ (let s9 := run_labels (init_state 7 1 false false) (firstn 10 refusal_labels) in
+      appended s9 (step s9 (Step 1%nat)) = [EvRet 1%nat CRun ROk]).
+Proof. vm_compute. repeat split; reflexivity. Qed.
+
 Example C15_example_nonvacuous :
   let s := run_labels (init_state 1 1 false false)
              [Call 1 CStart; Step 1; Step 1; Step 1; Call 1 CRun; StepRun; StepRun; Call 2 CRun;
@@ -57,3 +128,9 @@ Print Assumptions C15_second_run_refused.
 Print Assumptions C15_no_reset_during_run.
 Print Assumptions C15_refused_changes_nothing.
 Print Assumptions C15_run_task_states.
+Print Assumptions C15_second_run_refused_on_history.
+Print Assumptions C15_reset_refused_while_running.
+Print Assumptions C15_reset_refused_during_run_refuted.
+Print Assumptions C15_reset_during_run_partial.
+Print Assumptions C15_accepted_run_implies_idle.
+Print Assumptions C15_example_history_nonvacuous.
